@@ -17,6 +17,10 @@ Seed == atoi(IOEnv.SEED)
 N == BH * BW
 Grids(A) == [1 .. N -> A]
 
+(* castle wall cell code: 0 = no clue, else colour * 1000 + dir * 100 + n (colour 0 none, 1 white, 2 black) *)
+CWArrow(v) == IF v = 0 THEN YEmpty ELSE v % 1000
+CWColour(v) == v \div 1000
+
 (* decided value of a boolean key over a set of solutions given as the sets where the key is true *)
 BoolFacts(Sols, keys) == [i \in DOMAIN keys |->
     IF \A S \in Sols : keys[i] \in S THEN 1 ELSE IF \A S \in Sols : keys[i] \notin S THEN 0 ELSE -1]
@@ -44,12 +48,15 @@ Alpha ==
       [] Puzzle = "yajilin" -> IF N <= 6 THEN <<YEmpty, YEmpty, YUnknown, 100, 101, 200, 201, 300, 301, 400, 401>>
                                ELSE <<YEmpty, YEmpty, YEmpty, YUnknown, 100, 201, 301, 400>>
       [] Puzzle = "simpleloop" -> <<0, 1>>
+      [] Puzzle = "geradeweg" -> IF N <= 9 THEN <<0, 0, 0, 1, 2, 3>> ELSE <<0, 0, 1, 2, 3>>
+      [] Puzzle = "castle_wall" -> IF N <= 6 THEN <<0, 0, 0, 0, 0, 0, 0, 0, 0, 0, 1100, 1101, 1200, 1201, 1300, 1301, 1400, 1401, 2100, 2201, 2301, 2400, 100, 201, 300, 401>>
+                                   ELSE <<0, 0, 0, 0, 0, 0, 1101, 2200, 1300, 2401>>
       [] Puzzle = "nurikabe" -> <<0, 0, 0, 0, -1, 1, 2, 3, 4>>
       [] Puzzle = "akari" -> <<-2, -2, -2, -2, -1, 0, 1, 2>>
       [] Puzzle = "yinyang" -> <<0, 0, 1, 2>>
       [] Puzzle = "creek" -> IF (BH + 1) * (BW + 1) <= 9 THEN <<-1, -1, 0, 1, 2, 3, 4>>
                              ELSE IF (BH + 1) * (BW + 1) <= 12 THEN <<-1, -1, 0, 1, 2>> ELSE <<-1, 1, 2>>
-      [] Puzzle = "nurimisaki" -> <<-1, -1, -1, 0, 2, 3>>
+      [] Puzzle = "nurimisaki" -> IF N <= 9 THEN <<-1, -1, -1, 0, 2, 3>> ELSE <<-1, -1, 0, 2, 3>>
       [] Puzzle = "gokigen" -> IF (BH + 1) * (BW + 1) <= 9 THEN <<-1, -1, 0, 1, 2, 3, 4>>
                                ELSE IF (BH + 1) * (BW + 1) <= 12 THEN <<-1, -1, 0, 1, 2>> ELSE <<-1, 1, 2>>
       [] OTHER -> <<0>>
@@ -78,9 +85,7 @@ RoomProb(q) == LET r == ConnRgs[(q % Len(ConnRgs)) + 1]  j == q \div Len(ConnRgs
                  [] Puzzle = "starbattle" -> <<r, <<j + 1>>>>
                  [] OTHER -> <<r, <<>>>>
 
-Total == IF Puzzle \in RoomPuzzles THEN Len(ConnRgs) * ClueVariants ELSE (K ^ NCells) * Extra
-Prob(q) == IF Puzzle = "simpleloop" THEN <<GridOf(q % (K ^ NCells)), <<q \div (K ^ NCells)>>>>
-           ELSE IF Puzzle \in RoomPuzzles THEN RoomProb(q) ELSE GridOf(q)
+DrawnPuzzles == {"sudoku", "building", "doppelblock", "fillomino", "view"}
 
 Solve(p) ==
     CASE Puzzle = "slitherlink" ->
@@ -98,6 +103,13 @@ Solve(p) ==
              nsol |-> Cardinality(S)]
       [] Puzzle = "simpleloop" ->
             LET S == TLCEval({L.edges : L \in {L \in LoopsC : SimpleLoop(BH, BW, p[1], p[2][1], L.steps)}}) IN
+            [sat |-> S # {}, facts |-> IF S = {} THEN <<>> ELSE BoolFacts(S, Range1(MC)), nsol |-> Cardinality(S)]
+      [] Puzzle = "geradeweg" ->
+            LET S == TLCEval({L.edges : L \in {L \in LoopsC : Geradeweg(BH, BW, p, L.steps)}}) IN
+            [sat |-> S # {}, facts |-> IF S = {} THEN <<>> ELSE BoolFacts(S, Range1(MC)), nsol |-> Cardinality(S)]
+      [] Puzzle = "castle_wall" ->
+            LET arrows == [c \in 1 .. N |-> CWArrow(p[c])]  colours == [c \in 1 .. N |-> CWColour(p[c])]
+                S == TLCEval({L.edges : L \in {L \in LoopsC : CastleWall(BH, BW, arrows, colours, L.steps)}}) IN
             [sat |-> S # {}, facts |-> IF S = {} THEN <<>> ELSE BoolFacts(S, Range1(MC)), nsol |-> Cardinality(S)]
 
 (* cell-colouring puzzles: the answer is the set of cells whose key is true *)
@@ -122,17 +134,118 @@ SolveCells(p) ==
     LET S == TLCEval({X \in CellSets : CellRule(p, X)}) IN
     [sat |-> S # {}, facts |-> IF S = {} THEN <<>> ELSE BoolFacts(S, Range0(N)), nsol |-> Cardinality(S)]
 
+(* ---- number-grid puzzles: the candidate answers are the valid grids, built row by row ---- *)
+GridPuzzles == {"sudoku", "building", "doppelblock"}
+SZ == IF Puzzle = "sudoku" THEN BH * BH ELSE BH                \* side of the square grid (sudoku: BH = box size n)
+RowsOf == CASE Puzzle = "doppelblock" -> {s \in [1 .. SZ -> 0 .. SZ - 2] : DoppelLine(SZ, s)}
+            [] OTHER -> {s \in [1 .. SZ -> 1 .. SZ] : Distinct(s)}
+ColsOKSoFar(rows) ==      \* no value twice in a column (doppelblock: at most two blacks, each number at most once)
+    \A x \in 1 .. SZ :
+        IF Puzzle = "doppelblock"
+        THEN /\ Cardinality({y \in DOMAIN rows : rows[y][x] = 0}) <= 2
+             /\ \A v \in 1 .. SZ - 2 : Cardinality({y \in DOMAIN rows : rows[y][x] = v}) <= 1
+        ELSE Cardinality({rows[y][x] : y \in DOMAIN rows}) = Len(rows)
+RECURSIVE GrowRows(_)
+GrowRows(S) == IF \A r \in S : Len(r) = SZ THEN S
+               ELSE GrowRows(TLCEval({r2 \in {Append(r, s) : r \in S, s \in RowsOf} : ColsOKSoFar(r2)}))
+FlatGrid(rows) == [c \in 1 .. SZ * SZ |-> rows[((c - 1) \div SZ) + 1][((c - 1) % SZ) + 1]]
+GridsInit == IF Puzzle \in GridPuzzles
+             THEN SetToSeq({g \in {FlatGrid(r) : r \in GrowRows({<<>>})} :
+                              CASE Puzzle = "sudoku" -> SudokuGrid(BH, g) [] Puzzle = "building" -> LatinGrid(SZ, g)
+                                [] OTHER -> DoppelGrid(SZ, g)})
+             ELSE IF Puzzle = "fillomino" THEN SetToSeq({r \in AllRGS(N) : FillominoPartition(BH, BW, r)})
+             ELSE IF Puzzle = "compass" THEN SetToSeq({r \in AllRGS(N) : RgsMax(r) <= 2 /\ \A B \in RoomsOfRgs(r) : ConnCells(BH, BW, B)})
+             ELSE <<>>
+AnsGrids == pre.grids
+ViewsInit == IF Puzzle = "view" THEN SetToSeq({S \in SUBSET Cells(BH, BW) : ViewValid(BH, BW, S)}) ELSE <<>>
+Views == pre.views
+
+(* a problem of these puzzles is drawn from a solution: the clue vector the solution implies, masked, optionally with one
+   clue corrupted; q = solution index + NSol * (mask + NMask * corrupt) *)
+NSolG == CASE Puzzle = "view" -> Len(Views) [] OTHER -> Len(AnsGrids)
+NClues == CASE Puzzle = "sudoku" -> SZ * SZ [] Puzzle = "building" -> 4 * SZ [] Puzzle = "doppelblock" -> 2 * SZ
+            [] Puzzle \in {"fillomino", "view"} -> N [] Puzzle = "compass" -> 12 [] OTHER -> 0
+NMask == 2 ^ (IF NClues > 16 THEN 16 ELSE NClues)
+MaskBit(mask, j) == (mask \div (2 ^ ((j - 1) % 16))) % 2 = 1          \* (clue vectors longer than 16 reuse the bits)
+TrueClues(sidx) ==
+    CASE Puzzle = "sudoku" -> AnsGrids[sidx]
+      [] Puzzle = "building" ->
+            LET g == AnsGrids[sidx] IN
+            [j \in 1 .. 4 * SZ |->
+                LET i == ((j - 1) % SZ)  side == (j - 1) \div SZ IN
+                CASE side = 0 -> VisibleCount(ColSeq(SZ, SZ, g, i)) [] side = 1 -> VisibleCount(RevSeq(ColSeq(SZ, SZ, g, i)))
+                  [] side = 2 -> VisibleCount(RowSeq(SZ, g, i)) [] OTHER -> VisibleCount(RevSeq(RowSeq(SZ, g, i)))]
+      [] Puzzle = "doppelblock" ->
+            LET g == AnsGrids[sidx] IN
+            [j \in 1 .. 2 * SZ |-> IF j <= SZ THEN BetweenSum(RowSeq(SZ, g, j - 1)) ELSE BetweenSum(ColSeq(SZ, SZ, g, j - SZ - 1))]
+      [] Puzzle = "fillomino" -> SizeGrid(AnsGrids[sidx])
+      [] Puzzle = "view" -> ViewNums(BH, BW, Views[sidx])
+NoClue == IF Puzzle \in {"sudoku", "building", "fillomino"} THEN 0 ELSE -1
+DrawnClues(q) ==
+    LET sidx == (q % NSolG) + 1
+        mask == (q \div NSolG) % NMask
+        corrupt == (q \div (NSolG * NMask)) % 2 = 1
+        tc == TrueClues(sidx)
+        shown == {j \in DOMAIN tc : MaskBit(mask, j) /\ (Puzzle = "view" => (j - 1) \in Views[sidx])}
+        first == IF shown = {} THEN 0 ELSE CHOOSE j \in shown : \A k \in shown : j <= k
+    IN  [j \in DOMAIN tc |-> IF j \notin shown THEN NoClue
+                             ELSE IF corrupt /\ j = first THEN (IF Puzzle \in {"doppelblock", "view", "fillomino"} THEN tc[j] + 1 ELSE (tc[j] % SZ) + 1)
+                             ELSE tc[j]]
+(* compass: a partition with at most 3 regions, one compass per region (its v-th cell), true counts masked *)
+CompassProb(q) ==
+    LET r == AnsGrids[(q % NSolG) + 1]
+        v == (q \div NSolG) % 3
+        mask == (q \div (NSolG * 3)) % 4096
+        corrupt == (q \div (NSolG * 3 * 4096)) % 2 = 1
+        blocks == [b \in 0 .. RgsMax(r) |-> {c \in Cells(BH, BW) : r[c + 1] = b}]
+        pick(B) == LET q2 == SetToSeq(B) IN q2[(v % Len(q2)) + 1]
+    IN  [k \in 1 .. RgsMax(r) + 1 |->
+            LET B == blocks[k - 1]  cc == pick(B)  cy == RowOf(BW, cc)  cx == ColOf(BW, cc)
+                cnt == <<Cardinality({c \in B : RowOf(BW, c) < cy}), Cardinality({c \in B : ColOf(BW, c) < cx}),
+                         Cardinality({c \in B : RowOf(BW, c) > cy}), Cardinality({c \in B : ColOf(BW, c) > cx})>>
+            IN  <<cc>> \o [d \in 1 .. 4 |-> IF MaskBit(mask, (k - 1) * 4 + d) THEN (IF corrupt /\ k = 1 /\ d = 1 THEN cnt[d] + 1 ELSE cnt[d]) ELSE -1]]
+
+Total == IF Puzzle \in RoomPuzzles THEN Len(ConnRgs) * ClueVariants
+         ELSE IF Puzzle \in DrawnPuzzles THEN NSolG * NMask * 2
+         ELSE IF Puzzle = "compass" THEN NSolG * 3 * 4096 * 2
+         ELSE (K ^ NCells) * Extra
+Prob(q) == IF Puzzle = "simpleloop" THEN <<GridOf(q % (K ^ NCells)), <<q \div (K ^ NCells)>>>>
+           ELSE IF Puzzle \in RoomPuzzles THEN RoomProb(q)
+           ELSE IF Puzzle \in DrawnPuzzles THEN DrawnClues(q)
+           ELSE IF Puzzle = "compass" THEN CompassProb(q) ELSE GridOf(q)
+
+IntFacts(Sols, n) == [c \in 1 .. n |-> IF \A g1, g2 \in Sols : g1[c] = g2[c] THEN (CHOOSE g \in Sols : TRUE)[c] ELSE -1]
+SolveGrid(p) ==
+    LET all == {AnsGrids[k] : k \in DOMAIN AnsGrids}
+        S == CASE Puzzle = "sudoku" -> {g \in all : Givens(p, g)}
+               [] Puzzle = "building" -> {g \in all : Building(SZ, SubSeq(p, 1, SZ), SubSeq(p, SZ + 1, 2 * SZ), SubSeq(p, 2 * SZ + 1, 3 * SZ), SubSeq(p, 3 * SZ + 1, 4 * SZ), g)}
+               [] Puzzle = "doppelblock" -> {g \in all : Doppelblock(SZ, SubSeq(p, 1, SZ), SubSeq(p, SZ + 1, 2 * SZ), g)}
+               [] Puzzle = "fillomino" -> {SizeGrid(r) : r \in {r \in all : Givens(p, SizeGrid(r))}}
+    IN  [sat |-> S # {}, facts |-> IF S = {} THEN <<>> ELSE IntFacts(S, Len(CHOOSE g \in S : TRUE)), nsol |-> Cardinality(S)]
+SolveView(p) ==
+    LET S == {Views[k] : k \in {k \in DOMAIN Views : View(BH, BW, p, Views[k])}} IN
+    [sat |-> S # {},
+     facts |-> IF S = {} THEN <<>> ELSE IntFacts({ViewNums(BH, BW, X) : X \in S}, N) \o BoolFacts(S, Range0(N)),
+     nsol |-> Cardinality(S)]
+SolveCompass(p) ==
+    LET labs == {[c \in 1 .. N |-> f[c]] : f \in [1 .. N -> 0 .. Len(p) - 1]}
+        S == {lab \in labs : Compass(BH, BW, p, lab)} IN
+    [sat |-> S # {}, facts |-> IF S = {} THEN <<>> ELSE IntFacts(S, N), nsol |-> Cardinality(S)]
+
 (* which problem numbers this run covers *)
 Picked == LET T == Total IN
           IF Count = 0 \/ Count >= T THEN 0 .. T - 1
           ELSE {((Seed % 1000) * 7919 + j * ((T \div Count) + 1) + ((j * j) % 97)) % T : j \in 1 .. Count}
 
 Init == /\ pre = [loopsF |-> TLCEval(LoopsFInit), loopsC |-> TLCEval(LoopsCInit), connRgs |-> TLCEval(ConnRgsInit),
-                  cellSets |-> TLCEval(CellSetsInit)]
+                  cellSets |-> TLCEval(CellSetsInit), grids |-> TLCEval(GridsInit), views |-> TLCEval(ViewsInit)]
         /\ shard = -1 /\ pidx = -1
 (* one initial state (so that `pre` is computed once); it fans out into 64 shards, each of which fans out into its problems *)
 Next == \/ (shard = -1 /\ shard' \in 0 .. 63 /\ UNCHANGED <<pidx, pre>>)
         \/ (shard >= 0 /\ pidx = -1 /\ pidx' \in {j \in Picked : j % 64 = shard} /\ UNCHANGED <<shard, pre>>)
-SolveAny(p) == IF Puzzle \in CellPuzzles THEN SolveCells(p) ELSE Solve(p)
+SolveAny(p) == IF Puzzle \in CellPuzzles THEN SolveCells(p)
+               ELSE IF Puzzle \in GridPuzzles \cup {"fillomino"} THEN SolveGrid(p)
+               ELSE IF Puzzle = "view" THEN SolveView(p)
+               ELSE IF Puzzle = "compass" THEN SolveCompass(p) ELSE Solve(p)
 Export == pidx = -1 \/ PrintT(ToJson([id |-> pidx, puzzle |-> Puzzle, h |-> BH, w |-> BW, problem |-> Prob(pidx)] @@ SolveAny(Prob(pidx))))
 =============================================================================
